@@ -147,7 +147,7 @@ func gxTextSources(fams []gxFamily, thorough bool) []string {
 		"malformed": 1, "nested-calls": 9, "single-token-mutations": 6, "all-token-strings": 31}
 	if thorough {
 		stride = map[string]int{"operator-pairs": 3, "equal-level-chains": 1, "prefix-postfix-call-index-against-binary": 1, "calls-index-grouping": 1,
-			"malformed": 1, "nested-calls": 3, "single-token-mutations": 2, "all-token-strings": 97}
+			"malformed": 1, "nested-calls": 4, "single-token-mutations": 3, "all-token-strings": 193}
 	}
 	var out []string
 	seen := map[string]bool{}
@@ -176,7 +176,7 @@ func gxTextSources(fams []gxFamily, thorough bool) []string {
 
 // gxTextRenderings: every source compactly, with one blank everywhere and with every gap filled; every gap in turn
 // filled while the rest is compact - for every other source with one filler per gap (rotating) in the quick tier,
-// for every source with three in the thorough tier.
+// for every source with two in the thorough tier.
 func gxTextRenderings(sources []string, thorough bool) []gxRendering {
 	var out []gxRendering
 	for idx, it := range sources {
@@ -196,7 +196,7 @@ func gxTextRenderings(sources []string, thorough bool) []gxRendering {
 		}
 		per := 1
 		if thorough {
-			per = 3
+			per = 2
 		} else if idx%2 == 1 {
 			per = 0
 		}
